@@ -54,8 +54,8 @@ theorem recover_facts (env : Env) (c : Config) (x : Disk) (n : Nat) (h : (recove
 
 /-- The records the next launch may select: those recorded before the interrupted launch — if
     that state was a readable state of this release — or the one the interrupted call was installing. -/
-def Allowed (dpre : Disk) (v : String) (offer : Option Nat) (m : Meta) : Prop :=
-  (Settled dpre v ∧ InSlot (loadPatchesState dpre) m) ∨ offer = some m.number
+def Allowed (dpre : Disk) (v : String) (offers : List Nat) (m : Meta) : Prop :=
+  (Settled dpre v ∧ InSlot (loadPatchesState dpre) m) ∨ m.number ∈ offers
 
 def PjOK (A : Meta → Prop) (pj : JFile PatchesState) : Prop := ∀ m, InSlot (pj.getD {}) m → A m
 
@@ -425,28 +425,107 @@ theorem loadSaves_unsettled (d : Disk) (v : String) (h : ¬ Settled d v) :
   | missing => rfl
   | garbage => rfl
 
+/-- The calls a launch may contain (a restart ends the process; damage is not a call). -/
+def LaunchOp : Op → Prop
+  | .restart | .damage _ => False
+  | _ => True
+
+/-- One call of a configured process keeps the state readable and its records allowed. -/
+theorem step_launch_inv (env : Env) (cfg : Config) (A : Meta → Prop) (w : World) (op : Op)
+    (hc : w.config = some cfg) (hst : Settled w.disk cfg.version) (hd : SlotsOK A w.disk) (hop : LaunchOp op)
+    (hnew : ∀ o, op.offer = some o → ∀ m : Meta, m.number = o.number → A m) :
+    (step env w op).1.config = some cfg ∧ Settled (step env w op).1.disk cfg.version ∧ SlotsOK A (step env w op).1.disk := by
+  refine ⟨?_, ?_⟩
+  · rw [step_config, hc]; cases op <;> first | rfl | exact hop.elim
+  · cases he : entersWith w.config op with
+    | none =>
+      rw [step_disk_noenter env w op he]
+      cases op <;> first | exact ⟨hst, hd⟩ | exact hop.elim
+    | some c =>
+      rw [step_disk_enter env w op c he]
+      have hcc : c = cfg := by
+        cases op with
+        | init p => simp [entersWith, hc] at he
+        | check chan resp =>
+          cases resp with
+          | none => simp [entersWith] at he
+          | some r => simp only [entersWith, hc] at he; split at he <;> first | (cases he; rfl) | cases he
+        | restart => simp [entersWith] at he
+        | auto => simp [entersWith] at he
+        | damage d => simp [entersWith] at he
+        | start => simp only [entersWith, hc] at he; cases he; rfl
+        | success => simp only [entersWith, hc] at he; cases he; rfl
+        | failure => simp only [entersWith, hc] at he; cases he; rfl
+        | nextN => simp only [entersWith, hc] at he; cases he; rfl
+        | nextP => simp only [entersWith, hc] at he; cases he; rfl
+        | curN => simp only [entersWith, hc] at he; cases he; rfl
+        | update chan sc => simp only [entersWith, hc] at he; cases he; rfl
+      subst hcc
+      have hsettled : Settled (opDisk env c w op) c.version := by
+        cases op with
+        | init p => simp [entersWith, hc] at he
+        | start => exact secLaunchStart_settled env c _ hst
+        | success => exact secLaunchSuccess_settled env c _ hst
+        | failure => exact secLaunchFailure_settled env c _ hst
+        | nextN => exact secNextBootPatch_settled env c _ hst
+        | nextP => exact secNextBootPatch_settled env c _ hst
+        | curN => simp only [opDisk]; rw [secCurrentBootPatch_disk c w.disk hst]; exact hst
+        | check chan resp => exact checkCore_settled env c _ resp hst
+        | update chan sc => exact updateCore_settled env c _ (w.base c) sc hst
+        | restart => exact hst
+        | auto => exact hst
+        | damage dm => exact hst
+      refine ⟨hsettled, ?_⟩
+      by_cases hinst : ∃ chan sc, op = .update chan sc ∧ (updateCore env c (w.base c) w.disk sc).2.1 = .installed
+      · obtain ⟨chan, sc, rfl, hi⟩ := hinst
+        obtain ⟨o, out, ho, _, hslots⟩ := updateCore_install_spec env c (w.base c) w.disk sc hst hi
+        intro m hm
+        rcases hslots m hm with h | h
+        · exact hnew o (by simpa [Op.offer, Op.respOf] using ho) m (by rw [h])
+        · exact hd m h
+      · exact SlotsOK_sub (slots_opDisk env c w op hst (fun chan sc h hi => hinst ⟨chan, sc, h, hi⟩)) hd
+
+/-- Every section of every call of a launch. -/
+theorem segs_ops (env : Env) (cfg : Config) (A : Meta → Prop) (ops : List Op) :
+    ∀ (w : World), w.config = some cfg → Settled w.disk cfg.version → SlotsOK A w.disk →
+      (∀ op ∈ ops, LaunchOp op) → (∀ op ∈ ops, ∀ o, op.offer = some o → ∀ m : Meta, m.number = o.number → A m) →
+      ∀ q ∈ segCrashPairs (opsSegs env cfg w ops), PjOK A q.2 := by
+  induction ops with
+  | nil => intro w _ _ _ _ _ q hq; simp [opsSegs, segCrashPairs] at hq
+  | cons op rest ih =>
+    intro w hc hst hd hops hnew q hq
+    simp only [opsSegs, segCrashPairs, List.flatMap_append, List.mem_append] at hq
+    rcases hq with hq | hq
+    · exact segs_op env cfg A w op hst hd (hnew op List.mem_cons_self) q hq
+    · obtain ⟨h1, h2, h3⟩ := step_launch_inv env cfg A w op hc hst hd (hops op List.mem_cons_self) (hnew op List.mem_cons_self)
+      exact ih _ h1 h2 h3 (fun x hx => hops x (List.mem_cons_of_mem _ hx)) (fun x hx => hnew x (List.mem_cons_of_mem _ hx)) q hq
+
+theorem mem_offersOf (ops : List Op) (op : Op) (o : Offer) (h : op ∈ ops) (ho : op.offer = some o) : o.number ∈ offersOf ops := by
+  simp only [offersOf, List.mem_filterMap]
+  exact ⟨op, h, by rw [ho]; rfl⟩
+
 /-- The state files a process can leave behind when it dies anywhere in a launch
-    (initialisation, then one call): all harmless. -/
-theorem launch_files_ok (env : Env) (cfg : Config) (libs : List (String × Bytes)) (d : Disk) (p : InitParams) (op : Op)
-    (hp : mkConfig p = some cfg) :
-    ∀ q ∈ files d :: segCrashPairs (launchSegs env cfg { disk := d, config := none, libs := libs } p op),
-      FilesOK (Allowed d cfg.version (op.offer.map (·.number))) cfg.version q := by
+    (initialisation, then any calls): all harmless. -/
+theorem launch_files_ok (env : Env) (cfg : Config) (libs : List (String × Bytes)) (d : Disk) (p : InitParams) (ops : List Op)
+    (hp : mkConfig p = some cfg) (hops : ∀ op ∈ ops, LaunchOp op) :
+    ∀ q ∈ files d :: segCrashPairs (launchSegs env cfg { disk := d, config := none, libs := libs } p ops),
+      FilesOK (Allowed d cfg.version (offersOf ops)) cfg.version q := by
   intro q hq
-  have hnew : ∀ o, op.offer = some o → ∀ m : Meta, m.number = o.number →
-      Allowed d cfg.version (op.offer.map (·.number)) m := by
-    intro o ho m hm; right; rw [ho]; simp [hm]
+  have hnew : ∀ op ∈ ops, ∀ o, op.offer = some o → ∀ m : Meta, m.number = o.number →
+      Allowed d cfg.version (offersOf ops) m := by
+    intro op hop o ho m hm; right; rw [hm]; exact mem_offersOf ops op o hop ho
   have hw1 : (step env { disk := d, config := none, libs := libs } (.init p)).1 =
       { disk := secHandlePriorBootFailure env cfg d, config := some cfg, libs := libs } := by
     simp [step, init_effective env { disk := d, config := none, libs := libs } p cfg rfl hp]
   simp only [List.mem_cons, launchSegs, segCrashPairs, List.flatMap_cons, List.mem_append] at hq
   by_cases hst : Settled d cfg.version
-  · have hd : SlotsOK (Allowed d cfg.version (op.offer.map (·.number))) d := fun m hm => Or.inl ⟨hst, hm⟩
+  · have hd : SlotsOK (Allowed d cfg.version (offersOf ops)) d := fun m hm => Or.inl ⟨hst, hm⟩
     intro _
     rcases hq with rfl | hq | hq
     · exact PjOK_files hd
     · exact seg_failure env cfg _ d hst hd _ q hq
     · rw [hw1] at hq
-      exact segs_op env cfg _ _ op (secHandlePrior_settled env cfg d hst) (SlotsOK_sub (slots_secHandlePrior env cfg d hst) hd) hnew q hq
+      exact segs_ops env cfg _ ops _ rfl (secHandlePrior_settled env cfg d hst) (SlotsOK_sub (slots_secHandlePrior env cfg d hst) hd) hops hnew q hq
   · rcases hq with rfl | hq | hq
     · intro hs; exact absurd ((settledF_files d cfg.version).1 hs) hst
     · -- the reset: patches_state.json is emptied before state.json records this release
@@ -462,10 +541,10 @@ theorem launch_files_ok (env : Env) (cfg : Config) (libs : List (String × Bytes
       · intro _; exact PjOK_empty _
     · rw [hw1, secHandlePrior_unsettled_clean env cfg d hst] at hq
       intro _
-      refine segs_op env cfg _ { disk := cleanDisk cfg.version, config := some cfg, libs := libs } op (settled_clean _) ?_ hnew q hq
+      refine segs_ops env cfg _ ops { disk := cleanDisk cfg.version, config := some cfg, libs := libs } rfl (settled_clean _) ?_ hops hnew q hq
       intro m hm; simp [InSlot, loadPatchesState, cleanDisk, JFile.getD] at hm
 
-/-- **C04 (process death).** Let a launch — an effective initialisation followed by any one call,
+/-- **C04 (process death).** Let a launch — an effective initialisation followed by any calls,
     with any server behaviour — start from ANY storage directory `d` (any state files, any
     `patches/`), and let the process die anywhere in it: before, between or in the middle of any of the
     rewrites of the two state files (`q`), with ANY contents of `patches/` at that moment (`pd`:
@@ -473,26 +552,26 @@ theorem launch_files_ok (env : Env) (cfg : Config) (libs : List (String × Bytes
     (initialisation with crash detection, then the next-boot query) selects a patch `n`, then
     * its artifact validates at that moment (exists, recorded size, signature if a key is configured);
     * `n` was recorded in `d` before the interrupted launch and `d` was a readable state of this
-      release, or `n` is the patch the interrupted call was installing — so nothing of another
-      release's (or an unreadable) state is ever selected;
-    * `n` is not the patch whose own boot was in progress when the process died. -/
-theorem crash_safe (env : Env) (cfg : Config) (libs : List (String × Bytes)) (d : Disk) (p : InitParams) (op : Op)
-    (hp : mkConfig p = some cfg) (q : StateFiles)
-    (hq : q ∈ files d :: segCrashPairs (launchSegs env cfg { disk := d, config := none, libs := libs } p op))
+      release, or `n` is a patch an update of the interrupted launch was installing — so nothing of
+      another release's (or an unreadable) state is ever selected;
+    * `n` is not the patch recorded as booting at the moment of death. -/
+theorem crash_safe (env : Env) (cfg : Config) (libs : List (String × Bytes)) (d : Disk) (p : InitParams) (ops : List Op)
+    (hp : mkConfig p = some cfg) (hops : ∀ op ∈ ops, LaunchOp op) (q : StateFiles)
+    (hq : q ∈ files d :: segCrashPairs (launchSegs env cfg { disk := d, config := none, libs := libs } p ops))
     (pd : Option PatchesDir) (cfg' : Config) (hv : cfg'.version = cfg.version) (n : Nat)
     (h : (recover env cfg' { stateJson := q.1, patchesJson := q.2, patches := pd }).2 = some n) :
     ∃ m : Meta, m.number = n ∧
       validate env cfg'.key (recover env cfg' { stateJson := q.1, patchesJson := q.2, patches := pd }).1 m = true ∧
-      ((Settled d cfg.version ∧ InSlot (loadPatchesState d) m) ∨ op.offer.map (·.number) = some n) ∧
+      ((Settled d cfg.version ∧ InSlot (loadPatchesState d) m) ∨ n ∈ offersOf ops) ∧
       (q.2.getD {}).booting.map (·.number) ≠ some n := by
   obtain ⟨hs, ⟨m, hm, hmn, hval⟩, hboot⟩ := recover_facts env cfg' _ n h
-  have hok := launch_files_ok env cfg libs d p op hp q hq
+  have hok := launch_files_ok env cfg libs d p ops hp hops q hq
   have hsf : SettledF q.1 cfg.version := by rw [← hv]; exact hs
   have hA := hok hsf m hm
   refine ⟨m, hmn, hval, ?_, hboot⟩
   rcases hA with hA | hA
   · exact Or.inl hA
-  · right; rw [hA, hmn]
+  · right; rw [← hmn]; exact hA
 
 /-- … and with the ban invariant of reachable states (C02: no slot holds a banned number), a patch
     recorded before the interrupted launch that the next launch selects was not banned before it. -/
